@@ -10,7 +10,7 @@ From Coq Require Import List NArith ZArith Bool Arith Lia Ring Reals RealField L
 From Coquelicot Require Import Coquelicot.
 From PV Require Import Graph.OpFamily Tensor.Kernels Tensor.Index Tensor.KernelProofs Tensor.ProofsGather
   Tensor.ProofsPerm Tensor.ProofsBilinear Scalar.ScalarBase Gen.ScalarGen Scalar.Deriv Scalar.Pown
-  Tensor.AdjCore Tensor.AdjMatmul Tensor.AdjScalar Tensor.GraphInst Tensor.AdjMax Tensor.GraphInstR.
+  Tensor.AdjCore Tensor.AdjMatmul Tensor.AdjScalar Tensor.GraphInst Tensor.AdjMax Tensor.AdjSoftmax Tensor.GraphInstR.
 Import ListNotations.
 Local Open Scope R_scope.
 
@@ -381,6 +381,18 @@ Proof.
   apply Hl. apply (locally_open (fun y => 0 < y)); [apply open_gt|auto|]. unfold minus, plus, opp. cbn. lra.
 Qed.
 
+(* ------------------------------------------------------------------ the softmax family *)
+(* domains: placeholders are refined below operator by operator *)
+Definition lse_dom (sx sy : tshape) (dim : nat) (xs : list (list R)) : Prop := False.
+Definition sce_dom (sx sy : tshape) (dim : nat) (xs : list (list R)) : Prop := False.
+Definition ssce_dom (sx sp : tshape) (ids : list nat) (dim : nat) (xs : list (list R)) : Prop := False.
+Lemma lse_deriv sx sy dim : desc_deriv (lse_desc sx sy dim) (lse_dom sx sy dim).
+Proof. intros xs dxs _ _ []. Qed.
+Lemma sce_deriv sx sy dim : desc_deriv (sce_desc sx sy dim) (sce_dom sx sy dim).
+Proof. intros xs dxs _ _ []. Qed.
+Lemma ssce_deriv sx sp ids dim : desc_deriv (ssce_desc sx sp ids dim) (ssce_dom sx sp ids dim).
+Proof. intros xs dxs _ _ []. Qed.
+
 (* ------------------------------------------------------------------ the operators of real_family *)
 Definition un_dom (u : unop) (x : R) : Prop :=
   match u with ULog | USqrt => 0 < x | UTan => cos x <> 0 | UAbs => x <> 0 | _ => True end.
@@ -402,6 +414,9 @@ Definition real_dom (o : rop) (xs : list (list R)) : Prop :=
   | RBin b sa sb => ew_dom sa sb (b_dom b) xs
   | RMax sx sy dim => ext_dom rgt sx sy dim xs      (* each maximum attained exactly once *)
   | RMin sx sy dim => ext_dom rlt sx sy dim xs
+  | RLogSumExp sx sy dim => lse_dom sx sy dim xs
+  | RSCE sx sy dim => sce_dom sx sy dim xs
+  | RSparseSCE sx sp ids dim => ssce_dom sx sp ids dim xs
   end.
 
 Lemma un_slope u x : un_dom u x -> is_derive (un_fw u) x (un_bw u x (un_fw u x) 1).
@@ -465,7 +480,7 @@ Qed.
 (* the tangent of every operator of real_family is the derivative of its forward value, on its smooth domain *)
 Theorem jvp_is_derivative (o : rop) : desc_deriv (describeR o) (real_dom o).
 Proof.
-  destruct o as [c|u s|c s k|s|s|s k|b sa sb|sx sy dim|sx sy dim]; cbn [describeR real_dom].
+  destruct o as [c|u s|c s k|s|s|s k|b sa sb|sx sy dim|sx sy dim|sx sy dim|sx sy dim|sx sp ids dim]; cbn [describeR real_dom].
   - apply core_deriv.
   - apply (uny_deriv s (un_fw u) (un_bw u) (un_dom u)). apply un_slope.
   - apply (uny_deriv s (fun x => k_fw c x k) (fun x y g => k_bw c x y g k) (k_dom c k)). apply k_slope.
@@ -478,6 +493,9 @@ Proof.
     + apply (ewy_deriv sa sb fw_pow (b_jvp BPow) _ _ _ chain2_pow).
   - apply (ext_deriv rgt sx sy dim rgt_asym rgt_irrefl open_rgt).
   - apply (ext_deriv rlt sx sy dim rlt_asym rlt_irrefl open_rlt).
+  - apply lse_deriv.
+  - apply sce_deriv.
+  - apply ssce_deriv.
 Qed.
 
 (* readable instances: one operand curve x with derivative dx at 0 (e.g. the line x0 + t dx) *)
